@@ -36,6 +36,7 @@ type Request struct {
 	Trace      bool     `json:"trace"`
 	ListHashes bool     `json:"list_hashes"`
 	Property   string   `json:"property"` // violations of other properties are recorded but never stop the batch
+	RaceLog    string   `json:"race_log"` // GORACE log_path prefix (race build): new reports are attributed to the run that produced them
 }
 
 type ViolationOut struct {
@@ -117,6 +118,21 @@ func runOnce(t *testing.T, scenario string, cfg simrt.Config) (res *netpoll.SimR
 				herr = "panic outside tasks: " + s
 			}
 		}()
+		if simrt.RaceBuild {
+			// the testing package fails (and aborts) a test in which the detector reported a race;
+			// confine that to a throw-away subtest so that the batch goes on and the result is written
+			t.Run("b", func(st *testing.T) {
+				defer func() {
+					if r := recover(); r != nil && !strings.Contains(fmt.Sprint(r), "blocked goroutines remain") {
+						herr = "panic outside tasks: " + fmt.Sprint(r)
+					}
+				}()
+				synctest.Test(st, func(*testing.T) {
+					res = netpoll.SimRunScenario(scenario, cfg)
+				})
+			})
+			return
+		}
 		synctest.Test(t, func(t *testing.T) {
 			res = netpoll.SimRunScenario(scenario, cfg)
 		})
@@ -179,6 +195,89 @@ func violOut(run int, res *netpoll.SimResult, v simrt.Violation) ViolationOut {
 		Trace: traceStrings(res.Result, nil)}
 }
 
+// ---- race detector reports (C19) ----------------------------------------------------------------
+
+var raceLogOff int64
+
+// newRaceReports returns the reports the detector wrote since the last call, reduced to those
+// whose two conflicting accesses are both in netpoll's own code (accesses made by harness code
+// are ordered by the simulator's hidden hand-off only and say nothing about netpoll).
+func newRaceReports(prefix string) (fps []string, texts []string) {
+	if prefix == "" {
+		return nil, nil
+	}
+	path := fmt.Sprintf("%s.%d", prefix, os.Getpid())
+	data, err := os.ReadFile(path)
+	if err != nil || int64(len(data)) <= raceLogOff {
+		return nil, nil
+	}
+	chunk := string(data[raceLogOff:])
+	raceLogOff = int64(len(data))
+	for _, blk := range strings.Split(chunk, "==================") {
+		if !strings.Contains(blk, "DATA RACE") {
+			continue
+		}
+		lines := strings.Split(blk, "\n")
+		var sites []string
+		harness := false
+		for i, l := range lines {
+			tl := strings.TrimSpace(l)
+			if strings.HasPrefix(tl, "Write at") || strings.HasPrefix(tl, "Read at") || strings.HasPrefix(tl, "Previous write at") || strings.HasPrefix(tl, "Previous read at") ||
+				strings.HasPrefix(tl, "Atomic write at") || strings.HasPrefix(tl, "Previous atomic write at") || strings.HasPrefix(tl, "Atomic read at") || strings.HasPrefix(tl, "Previous atomic read at") {
+				// the first frame of this access that is netpoll (or harness) code
+				site := ""
+				for j := i + 1; j+1 < len(lines); j += 2 {
+					fn := strings.TrimSpace(lines[j])
+					loc := strings.TrimSpace(lines[j+1])
+					if fn == "" {
+						break
+					}
+					if strings.Contains(fn, "verif.local/simrt") {
+						harness = true // the access happened inside a simulator shim (or below one)
+						break
+					}
+					if strings.Contains(loc, "zzsim_") || strings.Contains(loc, "zzharness") || strings.Contains(fn, "zzharness") {
+						harness = true
+						break
+					}
+					if strings.Contains(fn, "cloudwego/netpoll") {
+						if k := strings.LastIndex(fn, "/"); k >= 0 {
+							fn = fn[k+1:]
+						}
+						if k := strings.Index(fn, "("); k > 0 && strings.HasSuffix(fn, ")") && !strings.Contains(fn, ").") {
+							fn = fn[:k]
+						}
+						site = strings.TrimSuffix(fn, "()")
+						break
+					}
+				}
+				if site == "" && !harness {
+					site = "?"
+				}
+				sites = append(sites, site)
+			}
+		}
+		if harness || len(sites) < 2 {
+			continue
+		}
+		sort.Strings(sites)
+		fps = append(fps, "C19/race/"+sites[0]+"+"+sites[1])
+		if len(blk) > 3000 {
+			blk = blk[:3000] + "..."
+		}
+		texts = append(texts, strings.TrimSpace(blk))
+	}
+	return fps, texts
+}
+
+// addRaceViolations turns new detector reports into violations of the run that just finished.
+func addRaceViolations(req *Request, res *netpoll.SimResult) {
+	fps, texts := newRaceReports(req.RaceLog)
+	for i := range fps {
+		res.Violations = append(res.Violations, simrt.Violation{Property: "C19", Oracle: "race-detector", Class: fps[i], Fingerprint: fps[i], Message: texts[i], Step: res.Steps})
+	}
+}
+
 func TestSim(t *testing.T) {
 	reqPath := os.Getenv("SIM_REQ")
 	if reqPath == "" {
@@ -212,11 +311,17 @@ func TestSim(t *testing.T) {
 			resp.HarnessError = append(resp.HarnessError, herr)
 			break
 		}
+		addRaceViolations(&req, res)
 		v := simrt.Violation{Message: "(debug run, policy " + pname + ") blocked=" + fmt.Sprint(res.Blocked) + " leaked=" + fmt.Sprint(res.Leaked)}
 		if len(res.Violations) > 0 {
 			v = res.Violations[0]
 		}
 		resp.Violations = append(resp.Violations, violOut(req.Start, res, v))
+		for _, v2 := range res.Violations[min(1, len(res.Violations)):] {
+			vo := violOut(req.Start, res, v2)
+			vo.Trace, vo.Log = nil, nil
+			resp.Violations = append(resp.Violations, vo)
+		}
 		resp.Outcomes[res.Outcome]++
 	default:
 		doRuns(t, &req, resp, start)
@@ -252,6 +357,7 @@ func doRuns(t *testing.T, req *Request, resp *Response, start time.Time) {
 			resp.HarnessError = append(resp.HarnessError, fmt.Sprintf("run %d: %s", run, herr))
 			break
 		}
+		addRaceViolations(req, res)
 		resp.Runs++
 		if req.ListHashes {
 			resp.RunHashes = append(resp.RunHashes, mix(res.TraceHash, uint64(res.Steps), strHash(res.Outcome), uint64(len(res.Violations)), uint64(res.VirtualNs)))
@@ -281,6 +387,8 @@ func doRuns(t *testing.T, req *Request, resp *Response, start time.Time) {
 			if len(res.Violations) == 0 {
 				resp.HarnessError = append(resp.HarnessError, fmt.Sprintf("run %d: outcome %s without a verdict: blocked=%v summary=%s", run, res.Outcome, res.Blocked, res.Summary))
 			}
+		case "harness-error":
+			resp.HarnessError = append(resp.HarnessError, fmt.Sprintf("run %d: the scenario could not be set up: %v summary=%s", run, res.Blocked, res.Summary))
 		}
 		if len(res.Violations) > 0 {
 			v := res.Violations[0]
@@ -341,6 +449,7 @@ func doReplay(t *testing.T, req *Request, resp *Response) {
 		resp.HarnessError = append(resp.HarnessError, herr)
 		return
 	}
+	addRaceViolations(req, res)
 	resp.Runs = 1
 	resp.Steps = int64(res.Steps)
 	resp.Outcomes[res.Outcome]++
@@ -369,7 +478,7 @@ func doShrink(t *testing.T, req *Request, resp *Response) {
 		r := *req
 		r.Trace = false
 		res, herr := runOnce(t, req.Scenario, replayCfg(&r, s, w))
-		if herr != "" || res == nil {
+		if herr != "" || res == nil || res.Outcome == "harness-error" {
 			return false
 		}
 		for _, v := range res.Violations {
@@ -473,7 +582,17 @@ func doShrink(t *testing.T, req *Request, resp *Response) {
 	r.Trace = true
 	res, herr := runOnce(t, req.Scenario, replayCfg(&r, S, W))
 	if herr != "" || res == nil || len(res.Violations) == 0 || (res.Violations[0].Fingerprint != req.Target && res.Violations[0].Class != req.Target) {
-		resp.HarnessError = append(resp.HarnessError, "shrink: minimised tapes do not reproduce: "+herr)
+		d := herr
+		if res != nil {
+			d += fmt.Sprintf(" outcome=%s steps=%d violations=%d", res.Outcome, res.Steps, len(res.Violations))
+			if len(res.Violations) > 0 {
+				d += " first=" + res.Violations[0].Fingerprint
+			}
+			if last != nil {
+				d += fmt.Sprintf(" (last accepted candidate: outcome=%s steps=%d hash=%x; this run hash=%x)", last.Outcome, last.Steps, last.TraceHash, res.TraceHash)
+			}
+		}
+		resp.HarnessError = append(resp.HarnessError, "shrink: minimised tapes do not reproduce: "+d)
 		return
 	}
 	v := violOut(0, res, res.Violations[0])
